@@ -38,7 +38,7 @@ class State:
     def __init__(self, ctx):
         self.ctx = ctx
         self.mode = "direct"
-        self.tap = _gem.GeminiTap(self.on_eval)
+        self.tap = _gem.GeminiTap(self.on_eval, ctx)
 
     def on_eval(self, gem, P, A, return_grad, res, orig):
         ctx = self.ctx
